@@ -57,9 +57,32 @@ pub fn schedules(seed: u64, n: usize) -> RunOut {
         for _ in 0..r.below(4) { let bl = r.range(1, 6) as usize; setup.push(format!("append W {}", hex(&r.bytes(bl)))); }
         for i in 0..6u8 { setup.push(format!("append X {}", hex(&[0x40 + i, i]))); }
         for l in &setup { sim.exec(l); }
+        // "replica race" cases start from a replica that is already synced to length 4 and holds block 1, so that the
+        // verification of the racing proofs reads stored nodes (a task can be suspended while it holds the lock, others
+        // queue up behind it and the lock is handed over between two acquisitions of one call)
+        let race = case % 4 == 1;
+        if race {
+            let mut step = |sim: &mut Sim, setup: &mut Vec<String>, l: String| -> String { let o = sim.exec(&l); setup.push(l); o };
+            let o = step(&mut sim, &mut setup, "prove X - - - 0:6".into());
+            if o.starts_with("ok fork") { let t = proof_full_txt(sim.proof.as_ref().unwrap()); step(&mut sim, &mut setup, format!("applyp R {t}")); }
+            let o = step(&mut sim, &mut setup, "missing R 1".into());
+            let nn: u64 = o.strip_prefix("ok ").and_then(|x| x.parse().ok()).unwrap_or(0);
+            let o = step(&mut sim, &mut setup, format!("prove X 1:{nn} - - -"));
+            if o.starts_with("ok fork") { let t = proof_full_txt(sim.proof.as_ref().unwrap()); step(&mut sim, &mut setup, format!("applyp R {t}")); }
+            // the writer grows: the racing proofs all carry the upgrade 6 -> 8
+            step(&mut sim, &mut setup, "append X 4606".into());
+            step(&mut sim, &mut setup, "append X 470707".into());
+        }
         // proofs for the replica, prepared on a scratch replica
         let mut proofs: Vec<String> = vec![];
-        {
+        if race {
+            let mut s2 = Sim::new(); s2.check_oracle = false;
+            for l in &setup { s2.exec(l); }
+            for (blk, up) in [("6", "6:2"), ("7", "6:2"), ("-", "6:2")] {
+                let b = if blk == "-" { "-".to_string() } else { let o = s2.exec(&format!("missing R {blk}")); format!("{blk}:{}", o.strip_prefix("ok ").and_then(|x| x.parse::<u64>().ok()).unwrap_or(0)) };
+                let o = s2.exec(&format!("prove X {b} - - {up}")); if o.starts_with("ok fork") { proofs.push(proof_full_txt(s2.proof.as_ref().unwrap())); }
+            }
+        } else {
             let mut s2 = Sim::new(); s2.check_oracle = false;
             for l in &setup { s2.exec(l); }
             for (blk, up) in [("0:0", "0:6"), ("3:0", "0:6"), ("-", "0:4")] { let o = s2.exec(&format!("prove X {blk} - - {up}")); if o.starts_with("ok fork") { proofs.push(proof_full_txt(s2.proof.as_ref().unwrap())); } }
@@ -69,7 +92,24 @@ pub fn schedules(seed: u64, n: usize) -> RunOut {
         // ---- tasks
         let ntasks = r.range(2, 4) as usize;
         let mut progs: Vec<Vec<String>> = vec![];
+        // "replica race" cases: every task works on the replica and applies a different proof for the same upgrade
+        // (block 0 + upgrade, block 3 + upgrade, upgrade only) after 0-3 reads, under fair lock hand-over — two
+        // applications that were both verified against the old tree must still behave like one after the other
+        let race = race && proofs.len() >= 3;
+        if race { *out.stats.entry("replica_race_cases".into()).or_insert(0) += 1; }
         for t in 0..ntasks {
+            if race {
+                let mut p = vec![];
+                // reads of the held block keep the core busy (storage reads under the lock), so that the other tasks
+                // queue up and async-lock switches to fair hand-over before this task's proof application starts
+                let busy = [2usize, 0, 3, 1][(t + case / 8) % 4];
+                for _ in 0..busy { p.push("get R 1".to_string()); }
+                if r.chance(1, 3) { p.push(match r.below(2) { 0 => format!("has R {}", r.below(7)), _ => "info R".to_string() }); }
+                p.push(format!("applyp R {}", proofs[(t + case / 4) % 3]));
+                if r.chance(1, 2) { p.push(format!("get R {}", [6u64, 7, 1][(t + case / 4) % 3])); }
+                progs.push(p);
+                continue;
+            }
             let ncalls = r.range(1, 4);
             let on_replica = r.chance(1, 3);
             let mut p = vec![];
@@ -124,13 +164,15 @@ pub fn schedules(seed: u64, n: usize) -> RunOut {
         // async-lock's anti-starvation threshold (0.5 ms), after which the lock is handed to waiters
         // in FIFO order instead of being re-taken by the task that just released it — so a waiter can
         // run between two lock acquisitions of one call, as it would on a multi-threaded executor.
-        let fair = case % 3 == 2;
+        let fair = case % 3 == 2 || race;
         if fair { *out.stats.entry("fair_handover_cases".into()).or_insert(0) += 1; }
         while tasks.iter().any(|t| t.is_some()) {
             let live: Vec<usize> = (0..tasks.len()).filter(|i| tasks[*i].is_some()).collect();
             // mostly random; sometimes stick with one task for a burst
-            let pick = live[r.below(live.len() as u64) as usize];
-            let burst = if r.chance(1, 4) { r.range(1, 6) } else { 1 };
+            // (every other race case: strict round robin, the schedule with the most hand-overs)
+            let rr = race && (case / 4) % 2 == 0;
+            let pick = if rr { live[steps as usize % live.len()] } else { live[r.below(live.len() as u64) as usize] };
+            let burst = if rr { 1 } else if r.chance(1, 4) { r.range(1, 6) } else { 1 };
             for _ in 0..burst {
                 if tasks[pick].is_none() { break; }
                 schedule.push(pick); steps += 1;
@@ -163,6 +205,7 @@ pub fn schedules(seed: u64, n: usize) -> RunOut {
         let order: Vec<String> = done.iter().map(|d| d.line.clone()).collect();
         let ctx = || format!("tasks {:?} || schedule (task polled at each step) {:?}", progs.iter().map(|p| p.iter().map(|l| l.chars().take(60).collect::<String>()).collect::<Vec<_>>()).collect::<Vec<_>>(), schedule.iter().take(400).collect::<Vec<_>>());
         let lineno = out.ops.len();
+        if race && std::env::var("HCVERIF_DEBUG_SCHED").is_ok() { eprintln!("RACE {} :: observed {:?}", ctx().chars().take(700).collect::<String>(), observed.iter().map(|o| o.chars().take(40).collect::<String>()).collect::<Vec<_>>()); }
         if hung { out.failures.push(Failure { key: "shared-core-hang".into(), detail: format!("tasks did not finish within 200000 scheduling steps: {}", ctx()), line: lineno }); }
         // (a) the completion order is the lock order: a sequential run in that order must give the same results
         let seq = sequential(&setup, &order);
